@@ -5931,6 +5931,7 @@ func (a *Agent) doPoll() error {
 		return nil
 	}
 
+	verifYieldSleepcmd("agent.dopoll.before-disconnect")
 	// Disconnect again (still sleeping)
 	if err := a.peerMgr.DisconnectAll(); err != nil {
 		a.logger.Warn("error disconnecting after poll",
